@@ -5,6 +5,7 @@ A real `twisted.internet.abstract.FileDescriptor` (subclass: scripted `writeSome
 `_disconnectSelectable` behaviour when `doWrite` returns a value), driven by an operation history with
 real logging producers whose callbacks re-enter the transport, against the Lean model
 (TwistedModel/Transport/FD.lean); plus the property oracle evaluated on the real code alone."""
+import collections
 import zlib
 
 from twisted.internet import abstract, error, main
@@ -17,12 +18,23 @@ RULE = ("histories of 3..30 operations (write, writeSequence incl. [] and [b''],
         "connection dropped by the reactor) over 0..2 producers whose k-th resumeProducing / pauseProducing runs a "
         "script of re-entrant transport calls; SEND_LIMIT and bufferSize either tiny (1..16, payloads 0..24 bytes, so "
         "both thresholds are crossed constantly) or the real 128 KiB / 64 KiB with payloads at the thresholds +-1 and "
-        "up to 1 MiB; distinct = (threshold regime, op kinds, event kinds, OS answer classes, nesting, SEND_LIMIT split "
-        "seen, final connection state)")
+        "up to 1 MiB; the Python representation of every argument varies too: writeSequence is given a list (40%) or a "
+        "tuple / generator / iter() / map object / deque / user collection / a list the caller clears or overwrites "
+        "right after the call / one list object re-filled for every call (60%, top level and inside producer callbacks), "
+        "write a bytes or a bytes-subclass instance (12%), registerProducer a bool or an int flag (1/3), 40% of the "
+        "producer objects have a false truth value (__bool__ False or __len__ 0), and in 25% of the histories a second "
+        "transport of the same class on the same reactor is written to and flushed in between (its stream is judged "
+        "too); distinct = (threshold regime, op kinds, argument representations, event kinds, OS answer classes, nesting, "
+        "SEND_LIMIT split seen, final connection state)")
 ASSUMES = [
     "0 < SEND_LIMIT (with SEND_LIMIT = 0 doWrite never moves _tempDataBuffer into dataBuffer; the class constant is 128 KiB)",
     "writeSomeData returns an int in [0, len(data)] or an exception instance; it does not re-enter the transport",
-    "write/writeSequence are given bytes / lists of bytes (the TypeError guard is not part of the property)",
+    "write is given bytes (or a bytes subclass), writeSequence any iterable of bytes - list, tuple, other collection, "
+    "one-shot iterator / generator (ITransport.writeSequence: Iterable[bytes]) - which the caller may go on using or "
+    "mutating once the call has RETURNED (not during it); the TypeError guard is not part of the property",
+    "registerProducer's streaming flag is a bool or an int (docstring: 'C{bool} or C{int}'); a producer is any object with "
+    "the three methods, whatever its truth value",
+    "other transports of the same class may be used between the operations of this one; they share nothing with it",
     "doWrite is called only by the reactor, for descriptors in its writer set; a value returned by doWrite makes the "
     "reactor remove the descriptor from both sets and call connectionLost (posixbase._disconnectSelectable)",
     "producer callbacks are finite scripts of write/writeSequence/unregisterProducer/loseConnection/loseWriteConnection calls",
@@ -42,6 +54,10 @@ TRUSTED = [
     "every run, len(self.dataBuffer) as a length parameter; translator-regenerated kernel proved equal to the model: "
     "TwistedProps.C14.gen_isSendBufferFull, gen_maybePauseProducer, gen_full_when_over_bufferSize)",
     "the fake reactor (two sets) and the scripted writeSomeData stand for the reactor and the kernel",
+    "Iovec.traverse / Iovec.truthy / Flag.truthy (TwistedModel/Transport/FDPy.lean) stand for Python's iteration protocol, "
+    "bool(iovec) and bool(streaming); producer truthiness and the bystander transport have no model counterpart (the model "
+    "tests `producer.isSome` and has one transport): for those the tie compares the real code on the unusual objects with the "
+    "model of the plain history, and the oracle judges the real code alone",
     "zlib.adler32 / the Lean adler32 and the shared LCG byte-stream generator used to keep 1 MiB cases on one line",
 ]
 MANIFEST = {
@@ -63,7 +79,11 @@ MANIFEST = {
             "registered only if that producer was registered after the write side had been shut, i.e. never had a byte "
             "accepted (close_only_after_flush, no exception left; half_closed_is_final, half_close_waits_for_producer); a "
             "registered push producer is paused whenever more than bufferSize bytes are pending and is never left paused "
-            "with a drained buffer. Model tied to abstract.py by differential runs, event by event; the pause test "
+            "with a drained buffer. writeSequence(<any iterable: list / tuple / other collection / one-shot iterator or "
+            "generator>) and registerProducer(p, <bool or int>) as the code has them do exactly what the model does with the "
+            "elements / the truth value (writeSequencePy_eq, applyPy_eq, reachPy_eq), so every theorem holds for histories of "
+            "Python-level operations (stream_integrity_py, close_only_after_flush_py); before the repair of writeSequence "
+            "(twisted 25e023e) a one-shot iterable lost every byte (writeSequencePyOld_counterexample). Model tied to abstract.py by differential runs, event by event; the pause test "
             "_isSendBufferFull is regenerated from abstract.py by the translator on every run and proved equal to the "
             "model's predicate (gen_*).",
     "note": "trusts Lean kernel, the hand-written model (differentially tied), the fake reactor and scripted kernel",
@@ -98,16 +118,35 @@ def dec_bytes(tok):
     return _stream(int(sd), int(l))
 
 
+SEQ_KINDS = "tgimqvcjr"     # see _Run._container
+
+
+def norm_tok(tok):
+    """the token of the abstract operation (what the Lean model is given): the Python representation of the
+    argument (which iterable, bytes subclass, int flag) is dropped"""
+    if tok[0] == "W":
+        return "w" + tok[1:]
+    if tok[0] == "S":
+        return "s" + tok[2:]
+    if tok[0] == "r" and tok[-1] == "n":
+        return tok[:-1]
+    return tok
+
+
 def dec_pop(tok):
-    """token → (kind, payload)"""
+    """token → (kind, payload, representation)"""
     if tok in ("u", "l", "h"):
-        return (tok, None)
+        return (tok, None, None)
     if tok == "s":
-        return ("s", [])
+        return ("s", [], "l")
     if tok[0] == "w":
-        return ("w", dec_bytes(tok[1:]))
+        return ("w", dec_bytes(tok[1:]), "b")
+    if tok[0] == "W":
+        return ("w", dec_bytes(tok[1:]), "B")
     if tok[0] == "s":
-        return ("s", [dec_bytes(t) for t in tok[1:].split(";")])
+        return ("s", [dec_bytes(t) for t in tok[1:].split(";")], "l")
+    if tok[0] == "S" and len(tok) >= 2 and tok[1] in SEQ_KINDS:
+        return ("s", [dec_bytes(t) for t in tok[2:].split(";")] if len(tok) > 2 else [], tok[1])
     raise ValueError(tok)
 
 
@@ -150,6 +189,23 @@ class _FD(abstract.FileDescriptor):
         return 7
 
 
+class _Bytes(bytes):
+    """a bytes subclass (legal data for write)"""
+
+
+class _Chunks:
+    """a re-iterable collection of chunks that is neither a list nor a tuple"""
+
+    def __init__(self, chunks):
+        self._c = list(chunks)
+
+    def __iter__(self):
+        return iter(list(self._c))
+
+    def __len__(self):
+        return len(self._c)
+
+
 class _Producer:
     def __init__(self, h, pid, spec):
         self.h, self.pid = h, pid
@@ -159,8 +215,12 @@ class _Producer:
         self.h.called(self.pid, k)
         q = self.q.get(k)
         if q:
-            for tok in q.pop(0):
-                self.h.transport_call(tok, nested=True)
+            self.h.depth += 1
+            try:
+                for tok in q.pop(0):
+                    self.h.transport_call(tok, nested=True)
+            finally:
+                self.h.depth -= 1
 
     def resumeProducing(self):
         self._cb("R")
@@ -170,6 +230,81 @@ class _Producer:
 
     def stopProducing(self):
         self._cb("S")
+
+
+class _ProducerFalse(_Producer):
+    """a producer whose truth value is false"""
+
+    def __bool__(self):
+        return False
+
+
+class _ProducerEmpty(_Producer):
+    """a queue-like producer: `len()` is the number of items it holds - none"""
+
+    def __len__(self):
+        return 0
+
+
+def _make_producer(h, pid, spec):
+    return (_Producer, _ProducerFalse, _ProducerEmpty)[spec.get("z", 0)](h, pid, spec)
+
+
+class _Side:
+    """A second transport of the same class on the same reactor (the bystander): only written to and flushed.  What
+    it hands to its OS must be exactly what was written to IT."""
+
+    def __init__(self, run):
+        self.run = run
+        self.fd = _FD(run.reactor, self)
+        self.fd.SEND_LIMIT = run.case["sl"]
+        self.fd.bufferSize = run.case["bs"]
+        self.fd.connected = 1
+        self.fd.startReading()
+        self.acc = bytearray()
+        self.sent = 0
+        self.accept = "A"
+
+    def os_write(self, data):
+        exp = bytes(self.acc[self.sent:self.sent + len(data)])
+        if data != exp:
+            self.run.violation("bystander-offered-wrong-bytes",
+                               f"another transport of the same class was offered {len(data)} bytes that are not the next pending "
+                               f"bytes of ITS stream (position {self.sent}, {len(self.acc) - self.sent} pending): got "
+                               f"{data[:24]!r}…, expected {exp[:24]!r}…")
+        n = len(data) if self.accept == "A" else min(self.accept, len(data))
+        self.sent += n
+        return n
+
+    def half_closed(self):
+        self.run.violation("bystander-closed", "the bystander transport was half-closed")
+
+    def lost(self, reason):
+        self.run.violation("bystander-closed", "the bystander transport was closed")
+
+    def op(self, tok):
+        fd = self.fd
+        if tok[0] == "d":
+            if fd in self.run.reactor.writers:
+                self.accept = "A" if tok == "dA" else int(tok[1:])
+                fd.doWrite()
+            return
+        kind, arg, _ = dec_pop(tok)
+        if kind == "w":
+            self.acc += arg
+            fd.write(arg)
+        elif kind == "s":
+            self.acc += b"".join(arg)
+            fd.writeSequence(arg)
+
+    def finish(self):
+        for _ in range(64):
+            if self.fd not in self.run.reactor.writers:
+                break
+            self.op("dA")
+        if self.sent != len(self.acc):
+            self.run.violation("bystander-not-delivered", f"{len(self.acc) - self.sent} of {len(self.acc)} bytes written to another "
+                               "transport of the same class never reached its OS")
 
 
 class _Run:
@@ -184,7 +319,10 @@ class _Run:
         self.fd.bufferSize = case["bs"]
         self.fd.connected = 1
         self.fd.startReading()
-        self.prods = [_Producer(self, i, p) for i, p in enumerate(case["prods"])]
+        self.prods = [_make_producer(self, i, p) for i, p in enumerate(case["prods"])]
+        self.side = None
+        self.depth = 0
+        self.shared = {}            # nesting depth → the list object the caller passes to writeSequence again and again
         self.evs = []
         self.accept = None
         # oracle bookkeeping
@@ -259,15 +397,52 @@ class _Run:
         if self.open:
             self.acc += data
 
+    def _container(self, chunks, rep):
+        """the iterable handed to writeSequence, and what the caller does with it once the call has returned"""
+        after = None
+        if rep == "l":
+            c = list(chunks)
+        elif rep == "t":
+            c = tuple(chunks)
+        elif rep == "g":
+            c = (x for x in chunks)
+        elif rep == "i":
+            c = iter(list(chunks))
+        elif rep == "m":
+            c = map(bytes, chunks)
+        elif rep == "q":
+            c = collections.deque(chunks)
+        elif rep == "v":
+            c = _Chunks(chunks)
+        elif rep == "c":            # the caller empties its list afterwards
+            c = list(chunks)
+            after = c.clear
+        elif rep == "j":            # the caller goes on using its list: overwrites an element, appends
+            c = list(chunks)
+
+            def after():
+                if c:
+                    c[0] = b"\xee-overwritten-later"
+                c.append(b"\xff-appended-later")
+        elif rep == "r":            # one list object, re-filled for every call (at this nesting depth)
+            c = self.shared.setdefault(self.depth, [])
+            c[:] = chunks
+        else:
+            raise ValueError(rep)
+        return c, after
+
     def transport_call(self, tok, nested=False):
         fd = self.fd
-        kind, arg = dec_pop(tok)
+        kind, arg, rep = dec_pop(tok)
         if kind == "w":
             self._note_write(arg)
-            fd.write(arg)
+            fd.write(_Bytes(arg) if rep == "B" else arg)
         elif kind == "s":
             self._note_write(b"".join(arg))
-            fd.writeSequence(arg)
+            c, after = self._container(arg, rep)
+            fd.writeSequence(c)
+            if after:
+                after()
         elif kind == "u":
             self.reg = None
             fd.unregisterProducer()
@@ -280,7 +455,7 @@ class _Run:
 
     def _producer(self, pid):
         while len(self.prods) <= pid:
-            self.prods.append(_Producer(self, len(self.prods), {}))
+            self.prods.append(_make_producer(self, len(self.prods), {}))
         return self.prods[pid]
 
     def _reactor_lost(self, why):
@@ -291,14 +466,19 @@ class _Run:
     def top(self, tok):
         fd = self.fd
         c = tok[0]
-        if c == "r":
+        if c == "b":
+            if self.side is None:
+                self.side = _Side(self)
+            self.side.op(tok[1:])
+        elif c == "r":
             pid, st = tok[1:].split(":")
-            pid, st = int(pid), st == "1"
+            as_int = st.endswith("n")          # registerProducer(p, 0) / (p, 1): "C{bool} or C{int}"
+            pid, st = int(pid), st[0] == "1"
             was = self.reg
             if was is None and not self.is_lost:
                 self.reg = [pid, st, None, self.half]
             try:
-                fd.registerProducer(self._producer(pid), st)
+                fd.registerProducer(self._producer(pid), int(st) if as_int else st)
             except RuntimeError:
                 self.evs.append("!RuntimeError")
                 self.reg = was
@@ -346,6 +526,8 @@ class _Run:
             self.evs = []
             self.top(tok)
             self.quiescent_checks(tok)
+            if tok[0] == "b":
+                continue                # an operation on the bystander is not an operation of this transport
             out.append((",".join(self.evs) if self.evs else "-") + "/" + self.state())
         line = " ".join(out)
         # oracle only: a fair reactor and a kernel that takes everything must now deliver the rest; what was accepted
@@ -363,10 +545,25 @@ class _Run:
         pending = len(self.acc) - self.sent
         if pending and not self.abnormal:
             self.violation("not-delivered", f"{pending} of {len(self.acc)} written bytes never reached the OS although every later write was accepted in full")
+        if self.side is not None:
+            self.side.finish()
         return line
 
 
 _last = [None, None, None]
+
+
+def _shared_state():
+    """non-empty mutable containers kept on the transport CLASSES (anything put there is shared by every transport of the
+    process and survives from one history to the next)"""
+    found = []
+    for cls in abstract.FileDescriptor.__mro__:
+        if cls is object:
+            continue
+        for name, v in vars(cls).items():
+            if isinstance(v, (list, dict, set, bytearray, collections.deque)) and len(v):
+                found.append((cls, name, v))
+    return found
 
 
 def _exec(case):
@@ -376,6 +573,13 @@ def _exec(case):
     try:
         line = r.run()
     finally:
+        leaked = _shared_state()
+        if leaked:
+            r.violation("state-shared-between-transports",
+                        "after the history, class-level (shared by all transports) mutable state is not empty: "
+                        + ", ".join(f"{c.__name__}.{n} holds {len(v)} item(s)" for c, n, v in leaked))
+            for _, _, v in leaked:      # containment: the next history starts from a clean class again
+                v.clear()
         _last[1] = r.bad if r.bad else None
         _last[2] = r.flags
     return line
@@ -386,6 +590,10 @@ def run_impl(case):
 
 
 def model_line(case):
+    """the history as it is: the driver decodes the representations itself (top-level writeSequence(<iterable>) and
+    registerProducer(p, <flag>) are run by the Python-level functions of TwistedModel/Transport/FDPy.lean, those inside
+    producer scripts are abstracted to their elements - TwistedProps.C14.applyPy_eq; `b…` operations act on another
+    transport and are skipped by the driver: the model of THIS transport is not affected by them)"""
     def queue(q):
         return "|".join((",".join(s) if s else "-") for s in q) if q else "-"
     prods = "+".join(queue(p.get("R", [])) + "/" + queue(p.get("P", [])) for p in case["prods"]) if case["prods"] else "-"
@@ -403,21 +611,42 @@ def oracle(case, impl_out):
     return _last[1]
 
 
+def _all_toks(case):
+    for t in case["ops"]:
+        yield t
+    for p in case["prods"]:
+        for k in ("R", "P"):
+            for sc in p.get(k, []):
+                for t in sc:
+                    yield t
+
+
 def tag(case, out):
     flags = _last[2] if _last[0] == repr(case) else set()
     kinds = set()
     for t in case["ops"]:
-        kinds.add(t[:2] if t[0] == "r" else ("d" + ("A" if t == "dA" else "E" if t == "dE" else "0" if t == "d0" else "n")) if t[0] == "d"
+        kinds.add(("r" + t.split(":")[1]) if t[0] == "r"
+                  else ("d" + ("A" if t == "dA" else "E" if t == "dE" else "0" if t == "d0" else "n")) if t[0] == "d"
                   else ("s0" if t == "s" else t[0]))
+    reps = set()
+    for t in _all_toks(case):
+        if t[0] == "S":
+            reps.add(t[1])
+        elif t[0] == "W":
+            reps.add("B")
+    for p in case["prods"]:
+        if p.get("z"):
+            reps.add("z%d" % p["z"])
     evk = set()
     for step in out.split(" "):
         for e in step.split("/")[0].split(","):
             if e == "-" or not e:
                 continue
             evk.add(e[2:] if e[0] == "p" else "o" if e[0] == "o" else e.split(":")[0])
-    nested = any(s for p in case["prods"] for q in p.values() for s in q)
+    nested = any(s for p in case["prods"] for k in ("R", "P") for s in p.get(k, []))
     regime = "big" if case["sl"] > 1000 else "tiny"
-    return f"{regime}:{''.join(sorted(kinds))}:{','.join(sorted(evk))}:{','.join(sorted(flags))}:{int(nested)}:{out[-8:]}"
+    return (f"{regime}:{''.join(sorted(kinds))}:{''.join(sorted(reps))}:{','.join(sorted(evk))}:{','.join(sorted(flags))}:"
+            f"{int(nested)}:{out[-8:]}")
 
 
 # ---------------------------------------------------------------------------------------
@@ -453,6 +682,24 @@ def corpus():
         _case(131072, 65536, [{"R": [], "P": []}], ["r0:1", "w65536:1", "w1:2", "d1000", "w131072:3", "dA", "w70000:1", "d131071", "dA", "dA", "dA"]),
         _case(8, 4, [{"R": [], "P": []}], ["r0:0", "c", "dA"]),
         _case(8, 4, [], ["p", "q", "l", "q", "dA"]),
+        # --- representations of the arguments (mutation audit M14) ---
+        # the witness found on the unrepaired tree (25e023e^): writeSequence(<generator>) lost every byte
+        _case(8, 4, [], ["Sg2:1;2:2", "dA"]),
+        _case(8, 4, [], ["Si2:1;2:2", "w1:3", "Sm3:4", "d2", "dA", "Sg", "Sq1:1", "Sv2:2;0:1", "St1:5", "dA"]),
+        # the caller goes on using the list it passed to writeSequence
+        _case(8, 4, [], ["Sc2:1;2:2", "dA"]),
+        _case(8, 4, [], ["Sj2:1", "w1:3", "dA"]),
+        _case(8, 4, [], ["Sr2:1", "Sr3:2;1:3", "dA", "Sr1:4", "Sr", "dA"]),
+        _case(8, 2, [{"R": [], "P": [["Sr1:7"], ["Sc2:8"]]}], ["r0:1", "Sr3:1", "d1", "Sr2:2", "dA", "dA"]),
+        _case(8, 4, [], ["W3:1", "W0:1", "d1", "W9:2", "dA", "dA"]),
+        # producers whose truth value is false; the streaming flag given as an int
+        _case(8, 4, [{"R": [["w1:5"]], "P": [], "z": 2}], ["r0:0", "w2:1", "l", "dA", "dA", "u", "dA"]),
+        _case(8, 4, [{"R": [], "P": [], "z": 1}], ["r0:1", "w6:1", "d2", "dA", "w5:2", "dA"]),
+        _case(8, 4, [{"R": [["w1:5"]], "P": []}], ["r0:0n", "w2:1", "l", "dA", "dA", "u", "dA"]),
+        _case(8, 4, [{"R": [], "P": [], "z": 2}], ["r0:1n", "w6:1", "d2", "dA", "u", "r0:0n", "l", "dA"]),
+        # another transport of the same class is used in between
+        _case(8, 4, [], ["w2:1", "bw2:2", "dA", "bdA"]),
+        _case(4, 4, [{"R": [], "P": []}], ["bw9:2", "r0:1", "w3:1", "bd2", "w9:3", "d1", "bs1:4;2:5", "dA", "bdA", "dA", "dA"]),
     ]
 
 
@@ -465,9 +712,12 @@ def _payload(rng, regime):
 
 def _write_tok(rng, regime):
     if rng.random() < 0.7:
-        return "w" + _payload(rng, regime)
+        return ("W" if rng.random() < 0.12 else "w") + _payload(rng, regime)
     k = rng.choice([0, 1, 2, 3])
-    return "s" + ";".join(_payload(rng, regime if regime == "tiny" or k < 2 else "tiny") for _ in range(k))
+    body = ";".join(_payload(rng, regime if regime == "tiny" or k < 2 else "tiny") for _ in range(k))
+    # the iterable: a list (plain), or one of the other representations (tuple, generator, iterator, map, deque, custom
+    # collection, list emptied / overwritten afterwards, one list object used again and again)
+    return ("s" if rng.random() < 0.4 else "S" + rng.choice(SEQ_KINDS)) + body
 
 
 def _accept(rng, regime, sl):
@@ -506,6 +756,10 @@ def _gen(rng, regime):
     for _ in range(rng.choice([0, 1, 1, 2])):
         prods.append({"R": [_script(rng, regime) for _ in range(rng.choice([0, 1, 2, 3]))],
                       "P": [_script(rng, regime) for _ in range(rng.choice([0, 0, 1, 2]))]})
+        z = rng.choice([0, 0, 0, 1, 2])        # truth value of the producer object: true / __bool__ False / __len__ 0
+        if z:
+            prods[-1]["z"] = z
+    bystander = rng.random() < 0.25
     ops = []
     n = rng.randint(3, 30 if regime == "tiny" else 14)
     faults = rng.random() < 0.15
@@ -516,7 +770,7 @@ def _gen(rng, regime):
         elif r < 0.58:
             ops.append(_accept(rng, regime, sl))
         elif r < 0.70:
-            ops.append(f"r{rng.randrange(0, max(1, len(prods)))}:{rng.choice([0, 1, 1])}")
+            ops.append(f"r{rng.randrange(0, max(1, len(prods)))}:{rng.choice([0, 1, 1])}{rng.choice(['', '', 'n'])}")
         elif r < 0.76:
             ops.append("u")
         elif r < 0.82:
@@ -531,6 +785,8 @@ def _gen(rng, regime):
             ops.append(rng.choice(["dE", "x"]))
         else:
             ops.append(_accept(rng, regime, sl))
+        if bystander and rng.random() < 0.2:
+            ops.append("b" + (_accept(rng, regime, sl) if rng.random() < 0.4 else norm_tok(_write_tok(rng, regime))))
     if rng.random() < 0.7:
         ops += ["dA"] * rng.choice([1, 2, 4])
     return _case(sl, bs, prods, ops)
@@ -567,6 +823,13 @@ def search(rng, tier, disagreeing):
 
 def shrink(c):
     ops, prods = c["ops"], c["prods"]
+    # a failure that does not depend on how the arguments are represented is best shown on plain ones
+    plain_ops = [norm_tok(t) for t in ops if t[0] != "b"]
+    plain_prods = [{k: [[norm_tok(t) for t in sc] for sc in p.get(k, [])] for k in ("R", "P")} for p in prods]
+    if plain_ops != ops or plain_prods != prods:
+        yield _case(c["sl"], c["bs"], plain_prods, plain_ops)
+        yield _case(c["sl"], c["bs"], prods, plain_ops)
+        yield _case(c["sl"], c["bs"], plain_prods, ops)
     for i in range(len(ops)):
         yield _case(c["sl"], c["bs"], prods, ops[:i] + ops[i + 1:])
     for i in range(len(prods)):
@@ -581,11 +844,13 @@ def shrink(c):
             if q:
                 yield _case(c["sl"], c["bs"], prods[:i] + [dict(p, **{k: q[:-1]})] + prods[i + 1:], ops)
     for i, t in enumerate(ops):
-        if t[0] == "w" and ":" in t:
+        if t[0] in "wW" and ":" in t:
             l, sd = t[1:].split(":")
             l = int(l)
             for nl in {l // 2, l - 1}:
                 if 0 <= nl < l:
-                    yield _case(c["sl"], c["bs"], prods, ops[:i] + [f"w{nl}:{sd}"] + ops[i + 1:])
+                    yield _case(c["sl"], c["bs"], prods, ops[:i] + [f"{t[0]}{nl}:{sd}"] + ops[i + 1:])
+        if norm_tok(t) != t:
+            yield _case(c["sl"], c["bs"], prods, ops[:i] + [norm_tok(t)] + ops[i + 1:])
         if t[0] == "d" and t[1:].isdigit() and int(t[1:]) > 0:
             yield _case(c["sl"], c["bs"], prods, ops[:i] + [f"d{int(t[1:]) // 2}"] + ops[i + 1:])
